@@ -234,6 +234,7 @@ func (db *DB) writeLocked(batch, ourBatch *Batch, merge, sync bool) error {
 	// Seq number.
 	seq := db.seq + 1
 	verifAt("w.group", seq, batchesLen(batches), len(batches), sync)
+	verifAt("w.batches", seq, batches)
 
 	// Write journal.
 	if err := db.writeJournal(batches, seq, sync); err != nil {
